@@ -80,7 +80,10 @@ Fixpoint first_line (t : tree) : N :=
 Fixpoint digits_val (s : text) (acc : Z) : Z :=
   match s with [] => acc | c :: t => digits_val t (acc * 10 + Z.of_N (c - 48))%Z end.
 Definition int_of_lexeme (s : text) : Z :=
-  match s with 45 :: t => (- digits_val t 0)%Z | 43 :: t => digits_val t 0 | _ => digits_val s 0 end.
+  match s with
+  | c :: t => if c =? 45 then (- digits_val t 0)%Z else if c =? 43 then digits_val t 0 else digits_val s 0
+  | [] => 0%Z
+  end.
 (* str(int) *)
 Fixpoint pos_digits (fuel : nat) (n : N) (acc : text) : text :=
   match fuel with O => acc | S f => let acc' := (48 + n mod 10) :: acc in if n / 10 =? 0 then acc' else pos_digits f (n / 10) acc' end.
@@ -99,7 +102,8 @@ Fixpoint decode (fuel : nat) (s : text) : dres :=
   match fuel with O => DErr | S f =>
   match s with
   | [] => DOk []
-  | 92 :: rest =>
+  | c0 :: rest =>
+    if negb (c0 =? 92) then match decode f rest with DOk y => DOk (c0 :: y) | e => e end else
       match rest with
       | [] => DErr
       | c :: t =>
@@ -125,7 +129,6 @@ Fixpoint decode (fuel : nat) (s : text) : dres :=
         else if c =? 78 then DUnsupported                           (* \N{name} *)
         else cont [92; c] t                                          (* unknown escape: kept *)
       end
-  | c :: t => match decode f t with DOk y => DOk (c :: y) | e => e end
   end end.
 Definition string_value (lexeme : text) : dres :=          (* lexeme includes the two delimiters *)
   match lexeme with
